@@ -396,7 +396,7 @@ func TestCheck(t *testing.T) {
 							judge(Case{Kind: "new", Type: "float64", Bits: f64(float64(v.Uint64())), Unit: vkit.B(u)}, w)
 							w.EvalRandom(vkit.HashU(f64(float64(v.Uint64())), uint64(ui)), nt)
 						}
-						for _, text := range []string{v.String() + u, v.String() + " " + u, " " + ref.Group(v.String(), "_") + " " + u + " "} {
+						for _, text := range []string{v.String() + u, v.String() + " " + u, " " + ref.Group(v.String(), "_") + "\u00a0" + u + " ", "0" + v.String() + u, "0_0" + ref.Group(v.String(), " ") + " " + u + "   "} {
 							for _, rule := range []int{0, int(size.RuleDisableUnit)} {
 								judge(Case{Kind: "text", Text: vkit.B(text), Rule: rule}, w)
 								w.Eval(nt)
@@ -518,13 +518,13 @@ func genText(rt *rapid.T) string {
 	b.WriteString(strings.Repeat(" ", rapid.IntRange(0, 2).Draw(rt, "lead")))
 	switch rapid.IntRange(0, 9).Draw(rt, "negCase") {
 	case 0:
-		b.WriteString(rapid.SampledFrom([]string{"_", " ", "-", "+", ".", "x", "\t"}).Draw(rt, "badLead"))
+		b.WriteString(rapid.SampledFrom([]string{"_", "\u00a0", "-", "+", ".", "x", "\t"}).Draw(rt, "badLead"))
 	}
 	nd := rapid.IntRange(1, 30).Draw(rt, "digits")
 	if rapid.Bool().Draw(rt, "short") {
 		nd = rapid.IntRange(1, 6).Draw(rt, "digitsShort")
 	}
-	seps := []string{"", "", "", " ", "_", " ", "  ", "_ "}
+	seps := []string{"", "", "", " ", "_", "\u00a0", "  ", "_ "}
 	for i := 0; i < nd; i++ {
 		d := rapid.IntRange(0, 9).Draw(rt, "d")
 		if i == 0 && rapid.IntRange(0, 3).Draw(rt, "leadingZero") == 0 {
@@ -545,7 +545,7 @@ func genText(rt *rapid.T) string {
 		b.WriteString(rapid.SampledFrom(seps).Draw(rt, "unitSep"))
 		b.WriteString(rapid.SampledFrom(badUnits).Draw(rt, "badUnit"))
 	case 8:
-		b.WriteString(rapid.SampledFrom([]string{"_", " ", " _", "_ "}).Draw(rt, "dangling"))
+		b.WriteString(rapid.SampledFrom([]string{"_", "\u00a0", " _", "_ "}).Draw(rt, "dangling"))
 	case 9:
 		b.WriteString(rapid.SampledFrom(ref.Units).Draw(rt, "unit"))
 		b.WriteString(rapid.SampledFrom([]string{"1", " 1", "_", "s"}).Draw(rt, "afterUnit"))
